@@ -65,7 +65,7 @@ def round_contexts(case, o, e):
 
     if rule in ("Plurality", "SNTV", "Borda") + G.SCORE_RULES:
         if len(st) > 1:
-            t = RS.fpv(J0) if rule in ("Plurality", "SNTV") else RS.borda(J0) if rule == "Borda" else RS.score_totals(J0)
+            t = RS.fpv(J0) if rule in ("Plurality", "SNTV") else RS.borda(J0, kw.get("score_vector")) if rule == "Borda" else RS.score_totals(J0)
             out[1] = dict(tally=t, selected=sel(st[1]), eliminated=set(), tbkind=tbk, score_opts=_tb_score_options(tbk, J0, J0) if rule not in G.SCORE_RULES else [], mode="elect")
     elif rule == "CondoBorda":
         if len(st) > 1:
